@@ -19,6 +19,7 @@ import time
 from vlib.core import VERIF_DIR, canon, case_hash, dump_json
 
 PY = os.environ.get("VERIF_PY", "/venv/bin/python")
+REPLAY_ROOT = os.environ.get("VERIF_REPLAY_DIR") or os.path.join(VERIF_DIR, "replays")
 
 
 def repo_dir():
@@ -238,7 +239,7 @@ def main(argv=None):
     crash_violations = []
     for job, res in zip(jobs, results):
         if res and res.get("crashed") is not None and job.get("caselog") and os.path.exists(job["caselog"]):
-            dst = os.path.join(VERIF_DIR, "replays", prop, f"crash-{job['sub']}-{job['shard']}.jsonl")
+            dst = os.path.join(REPLAY_ROOT, prop, f"crash-{job['sub']}-{job['shard']}.jsonl")
             os.makedirs(os.path.dirname(dst), exist_ok=True)
             with open(job["caselog"]) as fp:
                 lines = [l for l in fp.read().splitlines() if l.strip()][-12:]
@@ -332,7 +333,7 @@ def main(argv=None):
             continue
         nviol += 1
         if path is None:
-            path = os.path.join(VERIF_DIR, "replays", prop, f"{name}-{hashlib.sha1(sig.encode()).hexdigest()[:8]}.json")
+            path = os.path.join(REPLAY_ROOT, prop, f"{name}-{hashlib.sha1(sig.encode()).hexdigest()[:8]}.json")
             dump_json({"property": prop, "subcheck": name, "sig": sig, "msg": msg[:4000], "case": case,
                        "seed": verif_seed, "tier": a.tier}, path)
         out_lines.append(f"VIOLATION property={prop} replay={os.path.relpath(path, VERIF_DIR)}")
